@@ -50,7 +50,7 @@ def variants(case, rng):
     out.append(('index_shuffled_ints', with_rows(list(range(n)), perm), None))
     out.append(('index_strings', with_rows(list(range(n)), ['r%04d' % i for i in range(n)]), None))
     if case['quantitative']:
-        for a, b in ((2.0, 0.0), (1.0, 1.0), (1.0, -1.0), (0.5, 3.0), (4.0, -2.0)):
+        for a, b in ((2.0, 0.0), (1.0, 1.0), (1.0, -1.0), (0.5, 3.0), (4.0, -2.0), (5.0, 0.0), (3.0, 7.0), (8.0, 1.0), (1.0, 10.0), (1.0, float(2 ** 44)), (0.125, -float(2 ** 40))):
             c = dict(case); c['X'] = X.copy()
             for q in case['quantitative']: c['X'][q] = X[q] * a + b
             if case['X_dev'] is not None:
@@ -89,10 +89,27 @@ def one(arg):
     return recs
 
 
+def ushape_cases(rng, n):
+    """quantitative count tables with missing values whose target rate is NOT monotone and ties exactly between two non-adjacent values (dropna=True):
+    whether two groups may stay apart then depends on which groups are neighbours in the feature's order, never on how their labels are spelled"""
+    from rtc.c01_carver import PAIRS
+    out = []
+    for t in range(n):
+        k = rng.choice([4, 4, 5]); counts = [rng.choice(PAIRS) for _ in range(k)]
+        i = rng.choice(range(k - 2)); j = rng.choice(range(i + 2, k)); counts[j] = counts[i]
+        mid = rng.choice([c for c in PAIRS if c[0] * counts[i][1] != c[1] * counts[i][0]]); counts[i + 1] = mid
+        if sum(c[1] for c in counts) == 0 or sum(c[0] for c in counts) == 0: continue
+        scale = rng.choice([1, 5, 10, 20])
+        case = zoo.table_case([(a * scale, b * scale) for a, b in counts], kind='quantitative', nan_counts=tuple(scale * c for c in rng.choice([(2, 1), (1, 3), (3, 3), (1, 1)])))
+        cfg = dict(min_freq=0.04, min_freq_mod=rng.choice([0.0, 0.01, None]), max_n_mod=rng.choice([3, 4, 5]), sort_by=rng.choice(['tschuprowt', 'cramerv']), dropna=True, output_dtype=rng.choice(['float', 'str']))
+        out.append((case, cfg))
+    return out
+
+
 def run(ctx):
     nt, nr = (150, 60) if ctx.tier == 'quick' else (1500, 500)
-    specs = [(c, cfg, ctx.seed * 13 + i) for i, (c, cfg) in enumerate(table_cases(ctx.rng, nt, ctx.tier) + random_cases(ctx.rng, nr))]
-    ctx.bound('carver.fit + transform', '%d count-table frames (exact rate ties, thresholds on group frequencies) and %d random frames; per frame: row permutation, reversal, 3 index relabellings, '
-              '5 exact affine maps (a in {0.5,1,2,4}, b in {-2,-1,0,1,3}; only maps that are exactly invertible on the data), order-preserving category renaming' % (nt, nr))
+    specs = [(c, cfg, ctx.seed * 13 + i) for i, (c, cfg) in enumerate(table_cases(ctx.rng, nt, ctx.tier) + ushape_cases(ctx.rng, nt // 3) + random_cases(ctx.rng, nr))]
+    ctx.bound('carver.fit + transform', '%d count-table frames (exact rate ties, thresholds on group frequencies; a third more with missing values and a non-monotone rate tying between non-adjacent values) and %d random frames; per frame: row permutation, reversal, 3 index relabellings, '
+              '11 exact affine maps (a in {0.125,0.5,1,2,3,4,5,8}, b in {-2^40,-2,-1,0,1,3,7,10,2^44}; only maps that are exactly invertible on the data), order-preserving category renaming' % (nt, nr))
     for recs in zoo.pmap(one, specs):
         for clause, ok, wit, msg in recs: ctx.check(clause, 'carver.fit', ok, wit, msg)
